@@ -37,6 +37,11 @@ var spinners = []struct{ name, src string }{
 	{"bindings-loop", `var bs = _.bindings; for (;;) { bs.n = (bs.n || 0) + 1; }`},
 	{"emit-then-loop", `_.out({a: 1}); for (;;) { }`},
 	{"label-continue", `outer: for (;;) { for (;;) { continue outer; } }`},
+	// the script's body ends at once; the looping code runs when the
+	// result (or the exception) is taken over by the interpreter
+	{"looping-getter-in-result", `var o = {}; Object.defineProperty(o, "a", {enumerable: true, get: function() { for (;;) { } }}); return o;`},
+	{"looping-getter-nested", `var o = {x: 1, inner: {}}; Object.defineProperty(o.inner, "a", {enumerable: true, get: function() { for (;;) { } }}); return o;`},
+	{"looping-tostring-of-thrown", `throw {toString: function() { for (;;) { } }};`},
 }
 
 var terminators = []struct{ name, src string }{
